@@ -65,6 +65,8 @@ type RunResult struct {
 	Fingerprint uint64         `json:"fingerprint"`
 	Rules       map[string]int `json:"rules,omitempty"`
 	Kinds       map[string]int `json:"kinds,omitempty"`
+	Dups        int            `json:"dups"`           // duplications of multi-provider processes
+	DupSameIdent int           `json:"dup_same_ident"` // ... holding two channels with one identifier
 	ProcCount   uint64         `json:"proc_count"`
 	DeadCount   uint64         `json:"dead_count"`
 	ElapsedUs   int64          `json:"elapsed_us"`
